@@ -269,8 +269,10 @@ func (a *Action) touches(iface int) bool {
 
 // Flat returns the twin of the script: the same packets, none of them inside a pause window. A packet
 // scripted before the unblock of the lock request (Pre) is delivered just before the event, packets scripted
-// inside the window (In, Post) just after it, in order. Packets whose IDs are in drop are left out.
-func (s *Script) Flat(drop map[int]bool) *Script {
+// inside the window (In, Post) just after it, in order. Packets whose IDs are in drop are left out; Pre packets
+// whose IDs are in late could not be delivered before the lock in the paused run (the driver delivered them right
+// after the event) and are placed after the event here as well.
+func (s *Script) Flat(drop, late map[int]bool) *Script {
 	f := *s
 	f.Actions = nil
 	add := func(at int64, iface int, p *Packet) {
@@ -288,16 +290,22 @@ func (s *Script) Flat(drop map[int]bool) *Script {
 			before, after = a.At-1, a.At+1000
 		}
 		for i, w := range a.Win {
-			if w != nil {
+			if w != nil && w.Pre != nil && !late[w.Pre.ID] {
 				add(before, i, w.Pre)
 			}
 		}
 		b := *a
 		b.Win = make([]*Window, len(s.Ifaces))
 		f.Actions = append(f.Actions, &b)
+		// the driver delivers deferred packets in the order in which the call-backs gave up on them: per interface
+		// Pre (if late), then In, then Post; interfaces in the order the manager visited them, which does not matter
+		// because flows are kept per interface
 		for i, w := range a.Win {
 			if w == nil {
 				continue
+			}
+			if w.Pre != nil && late[w.Pre.ID] {
+				add(after, i, w.Pre)
 			}
 			for _, p := range w.In {
 				add(after, i, p)
